@@ -21,7 +21,7 @@ pub static DEF: CheckDef = CheckDef {
            build (all differentiable operations incl. matmul, conv, user operations), backward on any live node \
            (seed kept by the caller), keep a clone / reshaped view / sum(0) alias, fetch-and-keep a gradient before \
            later passes accumulate into the slot, clear via replace_gradient (returned array kept) or gradient_mut, \
-           GradientDescent::update on subsets of the leaves (older handles and clones kept), drops of other handles. \
+           GradientDescent::update on subsets of the leaves (older handles and clones kept), drops of other handles; family training: real Model loops whose inputs, targets, outputs, per-layer inputs/outputs, parameters and parameter gradients of every iteration are kept and re-verified after the run. \
            Non-trivial = at least one pass or update ran while >= 5 registered aliases were alive; distinct = \
            distinct history text.",
     floors,
@@ -30,7 +30,7 @@ pub static DEF: CheckDef = CheckDef {
 };
 
 fn families(t: Tier) -> Vec<(&'static str, u64)> {
-    vec![("history", t.n(8_000, 150_000))]
+    vec![("history", t.n(8_000, 150_000)), ("training", t.n(600, 20_000))]
 }
 fn floors(_t: Tier) -> Vec<(&'static str, u64)> {
     vec![
@@ -45,7 +45,51 @@ fn floors(_t: Tier) -> Vec<(&'static str, u64)> {
     ]
 }
 
+fn run_training(ctx: &mut Ctx, r: &mut Rng) {
+    use crate::nn::*;
+    use crate::refmodel::*;
+    let spec = gen_net(r, false);
+    let n_iter = r.range(2, 8);
+    let params0 = gen_params(r, &spec, false);
+    let mut iterations = vec![];
+    for _ in 0..n_iter {
+        let input = gen_input(r, &spec, false);
+        let out = match forward_ref::<f64>(&spec, &params0, &input) {
+            Some((o, _)) => o,
+            None => return,
+        };
+        iterations.push(Iteration { input, target: gen_target(r, &out.dims), double_backward: r.chance(1, 6) });
+    }
+    let desc = format!("training|{} iterations={}", spec.describe(), n_iter);
+    ctx.case(&desc, true);
+    ctx.sample("training", || desc.clone());
+    match train_spied(&spec, &params0, &iterations, true) {
+        Err(m) => {
+            ctx.count("training_panicked(ignored)", 1);
+            ctx.hist("ignored_panics", &panic_class(&m));
+        }
+        Ok(run) => {
+            ctx.count("handles_registered", run.kept.len() as u64);
+            for k in &run.kept {
+                ctx.count("snapshot_reverifications", 1);
+                ctx.count(&format!("registered_{}", k.kind), 1);
+                if k.a.dimensions() != &k.dims[..] || crate::cg::bits(&k.a) != k.bits {
+                    let old: Vec<f64> = k.bits.iter().map(|b| f64::from_bits(*b)).collect();
+                    ctx.violation(
+                        &format!("C08|training|mutated-{}", k.kind),
+                        format!("a {} handle registered in iteration {} changed: dims {:?} -> {:?}, values {} -> {}\n{}", k.kind, k.iteration, k.dims, k.a.dimensions(), crate::cg::short(&old), crate::cg::short(&crate::cg::vals(&k.a)), desc),
+                    );
+                    break;
+                }
+            }
+        }
+    }
+}
+
 pub fn run_case(ctx: &mut Ctx, fam: &str, _k: u64, r: &mut Rng) {
+    if fam == "training" {
+        return run_training(ctx, r);
+    }
     let mut cfg = if r.chance(2, 3) { GenCfg::exact() } else { GenCfg::smooth() };
     cfg.max_ops = 100;
     cfg.untracked_eighths = 1;
